@@ -52,7 +52,7 @@ Panic(st) == [st EXCEPT !.ctl = "panic"]
 Stopped(st) == st.ctl = "panic" \/ st.ctl = "fuel"
 
 RECURSIVE EvalE(_, _, _), EvalArgs(_, _, _, _, _), ExecB(_, _, _, _), ExecS(_, _, _), PlaceOf(_, _, _),
-          Loop(_, _, _, _), ForLoop(_, _, _, _, _, _), MatchArms(_, _, _, _, _), StructFields(_, _, _, _, _),
+          Loop(_, _, _, _), ForLoop(_, _, _, _, _, _), ForIn(_, _, _, _, _), MatchArms(_, _, _, _, _), StructFields(_, _, _, _, _),
           ArrElems(_, _, _, _, _), Deref(_, _)
 
 (* follow references until a non-reference value *)
@@ -191,6 +191,16 @@ ForLoop(P, s, st, cur, hi, fuel) ==
     ELSE IF b.ctl = "c" \/ b.ctl = "n" THEN ForLoop(P, s, [b EXCEPT !.ctl = "n"], ZAdd(cur, ZFromNat(<<1>>)), hi, fuel - 1)
     ELSE b
 
+(* for v in xs / for i, v in xs : the elements the array has when the loop starts, in order; i counts from 0 *)
+ForIn(P, s, st, es, j) ==
+    IF j > Len(es) THEN st ELSE
+    LET s1 == [st EXCEPT !.fr[Cur(st)] = Bind(IF s.i = "" THEN @ ELSE Bind(@, s.i, IntV([s |-> TRUE, b |-> 32], ZFromNat(NFromInt(j - 1)))),
+                                              s.n, es[j])]
+        b == ExecB(P, s.b, 1, s1) IN
+    IF b.ctl = "b" THEN [b EXCEPT !.ctl = "n"]
+    ELSE IF b.ctl = "c" \/ b.ctl = "n" THEN ForIn(P, s, [b EXCEPT !.ctl = "n"], es, j + 1)
+    ELSE b
+
 MatchArms(P, arms, i, v, st) ==
     IF i > Len(arms) THEN st
     ELSE IF arms[i].dflt THEN ExecB(P, arms[i].b, 1, st)
@@ -226,6 +236,8 @@ ExecS(P, s, st) ==
       [] s.k = "while"  -> Loop(P, s, st, 200)
       [] s.k = "for"    -> LET lo == EvalE(P, s.lo, st)  hi == EvalE(P, s.hi, lo.st) IN
                            IF Stopped(hi.st) THEN hi.st ELSE ForLoop(P, s, hi.st, lo.v.z, hi.v.z, 200)
+      [] s.k = "forin"  -> LET a == EvalE(P, s.e, st) IN
+                           IF Stopped(a.st) THEN a.st ELSE ForIn(P, s, a.st, a.v.e, 1)
       [] s.k = "match"  -> LET v == EvalE(P, s.e, st) IN
                            IF Stopped(v.st) THEN v.st ELSE MatchArms(P, s.arms, 1, v.v, v.st)
       [] s.k = "append" -> LET a == EvalE(P, s.e, st)  pl == PlaceOf(P, s.lv, a.st) IN
